@@ -52,9 +52,9 @@ Section Locks.
   Lemma same_nodes s s' : nodes s' = nodes s -> no_new s s'.
   Proof. intros H m. unfold lk, Interp.st. now rewrite H. Qed.
 
-  Lemma no_new_register s n : no_new s (register_interrupt s n).
+  Lemma no_new_register s n : no_new s (register_interrupt p s n).
   Proof.
-    unfold register_interrupt. set (s1 := with_ints s _ _).
+    unfold register_interrupt. destruct (in_ended_block p s n); [apply no_new_refl|]. set (s1 := with_ints s _ _).
     eapply no_new_trans; [apply (same_nodes s s1); reflexivity|].
     apply no_new_set_ns. cbn [set_cond lock_acquired]. exact id.
   Qed.
@@ -235,7 +235,7 @@ Section Locks.
     - intros e b f k s H. now apply Chain_step.
     - intros s n H. apply (Chain_no_new s); [|exact H]. eapply no_new_trans; [|apply no_new_set_error].
       apply (no_new_upd s n (fun x => set_failed x true)). apply kl_failed.
-    - intros s i sr H. apply (Chain_no_new s); [apply same_nodes; reflexivity|exact H].
+    - intros s n sr k H. apply (Chain_no_new s); [apply same_nodes; reflexivity|exact H].
     - intros s n H. apply (Chain_no_new s); [apply no_new_mark_completed|exact H].
     - intros s H. apply (Chain_no_new s); [apply same_nodes; reflexivity|exact H].
     - apply Chain_init.
